@@ -97,7 +97,7 @@ type counters struct {
 
 func (c *counters) inc(k string) { c.calls[k].Add(1) }
 
-var apiNames = []string{"site.graceExpiredAfterUnlock", "site.reconnectEntry", "IsLeader", "LeaderID", "Token", "Status", "ValidateToken", "ValidateTokenOrDemote", "OnPromote", "OnDemote", "Start", "Stop", "StopWithContext", "conn.D", "conn.R", "conn.C", "outside"}
+var apiNames = []string{"site.graceExpiredAfterUnlock", "site.reconnectEntry", "IsLeader", "LeaderID", "Token", "Status", "ValidateToken", "ValidateTokenOrDemote", "OnPromote", "OnDemote", "Start", "Stop", "StopWithContext", "conn.D", "conn.R", "conn.C", "conn.D.late", "conn.R.late", "conn.C.late", "outside"}
 
 func TestBatch(t *testing.T) {
 	outPath := os.Getenv("VERIF_OUT")
@@ -330,6 +330,17 @@ func runScenario(t *testing.T, r *rand.Rand, res *h.Result) {
 						f, which = c, "conn.C"
 					}
 					if f != nil {
+						// (the real client queues its callbacks: a notification can be delivered
+						// late - after the election it was meant for has been stopped, or even
+						// started again)
+						if !focus && rc.IntN(3) == 0 {
+							select {
+							case <-time.After(time.Duration(rc.IntN(150)) * ms):
+							case <-stop:
+								return
+							}
+							cnt.inc(which + ".late")
+						}
 						f(conn)
 						cnt.inc(which)
 					}
